@@ -122,6 +122,23 @@ def run(payload):
             if not (a >= t - eps and a > prev):
                 fail("logarithmic.next", dt_initial=d0, factor=factor, t=t, prev=prev, got=a)
             prev = a
+    # ---- the two clauses of the statement that the code does not meet (recorded as known findings)
+    ci = ConstantInterrupts(dt=2.0, t_start=1.0)
+    answers = [ci.initialize(4.0)]
+    for _k in range(3):
+        answers.append(ci.next(answers[-1]))
+    cases += 1
+    if any(abs(((a - 1.0) / 2.0) - round((a - 1.0) / 2.0)) > 1e-9 for a in answers):
+        extra = {"id": "constant_run_starting_after_t_start_leaves_the_lattice", "schedule": "ConstantInterrupts(dt=2, t_start=1)", "first_query": 4.0, "answers": answers, "lattice": "1 + 2k"}
+        fails.append(extra) if len(fails) < 8 else None
+    li = LogarithmicInterrupts(dt_initial=1.0, factor=2.0)
+    answers = [li.initialize(0.0)]
+    for t in (10.0, 10.0, 10.0, 10.0):
+        answers.append(li.next(t))
+    gaps = [b - a for a, b in zip(answers, answers[1:])]
+    cases += 1
+    if any(g2 < g1 - 1e-12 for g1, g2 in zip(gaps, gaps[1:])):
+        fails.append({"id": "logarithmic_gaps_shrink_after_skipped_interrupts", "schedule": "LogarithmicInterrupts(dt_initial=1, factor=2)", "queries": [0, 10, 10, 10, 10], "answers": answers, "gaps": gaps}) if len(fails) < 8 else None
     return {"ok": True, "cases": cases, "failures": fails}
 
 
